@@ -2,6 +2,7 @@
 
 mod c05;
 mod c11;
+mod c12;
 mod c15;
 mod c16;
 mod c18;
@@ -63,6 +64,17 @@ fn spec_for(prop: &str, _tier: Tier) -> Option<Spec> {
 		.require("deferred_commits", 5)
 		.require("completion_checks", 10)
 		.budget(45, 600),
+		"C12" => Spec::new(
+			"C12",
+			"exploration",
+			"Threaded half: a case is one 1.5-6 s history with LIVE background workers and two committers writing fresh keys of many size classes (value tables are created and grown all the time), sync_wal = sync_data = true. The harness binary interposes write / read / fsync / fdatasync / msync / ftruncate of the database files (thread-safe trace mode, nothing is failed) and evaluates R1 (a log file is read for enactment only while none of its appended bytes is unsynced) and R4 (when a thread truncates a log file, every table / index / ref-count file that was mapped when that thread began its flush and is still mapped has been msynced by it since its previous log truncation) - through the shutdown as well. In two of three histories every set_len of a table file (made inside TableFile::grow under the table's exclusive map lock) is held for 0.3-4 ms, so the cleanup stage meets tables whose lock the commit stage holds. evaluations = log reads judged by R1 + table files required by R4; distinct_nontrivial = distinct (always_flush, grow held, R4 evaluated) classes.",
+		)
+		.require("r1_checks", 2000)
+		.require("r4_checks", 100)
+		.require("r4_files_required", 1000)
+		.require("grow_calls_held", 200)
+		.require("threaded_histories", 20)
+		.budget(30, 300),
 		"C16" => {
 			let mut s = Spec::new(
 				"C16",
@@ -125,6 +137,7 @@ fn run_one(ctx: &Ctx, rep: &mut Report, case_seed: u64, variant: u64) {
 	match ctx.prop.as_str() {
 		"C05" => c05::run_case(ctx, rep, case_seed, variant),
 		"C11" => c11::run_case(ctx, rep, case_seed, variant),
+		"C12" => c12::run_case(ctx, rep, case_seed, variant),
 		"C15" => c15::run_case(ctx, rep, case_seed, variant),
 		"C16" => c16::run_case(ctx, rep, case_seed, variant),
 		"C18" => c18::run_case(ctx, rep, case_seed, variant),
